@@ -39,7 +39,10 @@ ASSUMPTIONS = [
     "a blocked put/get counts as timed out from the moment its future carries TimeoutError, not "
     "from its deadline",
     "when a get finds a full queue with a blocked putter, the item returned may be chosen before "
-    "or after the putter's item enters the queue (differs only for LIFO / priority queues)",
+    "or after the putter's item enters the queue (differs only for LIFO / priority queues): the "
+    "blocked put is concurrent with the get, so it may take effect on either side of it; choosing "
+    "first is the order a strictly bounded queue dictates (the queue never holds maxsize+1 items), "
+    "admitting first is what Tornado does (an atomic exchange, never observable as qsize > maxsize)",
     "join(timeout): unfinished reaching 0 at/after the deadline but before the timer callback "
     "was observed to have run may legally complete the join or raise TimeoutError",
     "resolution order is compared among blocked getters/putters; join futures are excluded",
@@ -224,8 +227,13 @@ def run(scn, full_log=False):
                 observed = None
                 if fut.done() and not fut.cancelled() and fut.exception() is None:
                     observed = fut.result()
-                if len(model.get_candidates()) > 1:
+                cands = model.get_candidates()
+                if len(cands) > 1:
                     probe("get_with_putter_handoff_two_legal_items")
+                    if observed == cands[1]:
+                        # legal (strict bounded-queue order: pop, then admit), not what
+                        # Tornado does; only appears in the table when it happens
+                        probe("handoff_item_chosen_before_putter_admitted")
                 s, res = model.get(wid, dl, now, observed)
                 rig.track(wid, fut)
                 rig.after_create(wid)
@@ -246,8 +254,11 @@ def run(scn, full_log=False):
                     exc = "QueueEmpty"
                 except Exception as e:
                     exc = type(e).__name__
-                if len(model.get_candidates()) > 1:
+                cands = model.get_candidates()
+                if len(cands) > 1:
                     probe("get_with_putter_handoff_two_legal_items")
+                    if exc is None and item == cands[1]:
+                        probe("handoff_item_chosen_before_putter_admitted")
                 mexc, mitem, res = model.get_nowait(item)
                 rig.resolved_by_op(res)
                 if exc is None:
